@@ -179,6 +179,9 @@ Section Interp.
 
   Definition mut (col : N) : bool := in_filter (e_mutable ev) col.
 
+  (* the declared shape of a parameter: n entries, or (n = 0) the shape of the module's input, like a Dense kernel *)
+  Definition psize (n : nat) (input : vec) : nat := match n with O => length input | _ => n end.
+
   Definition step (p : path) (input : vec) (fr : frame) (s : st) (c : stmt) : res (frame * st) :=
     let bind x v := mkFrame ((x, v) :: f_locals fr) (f_resv fr) (f_auto fr) (f_insts fr) in
     let reserve nm col (fr' : frame) := mkFrame (f_locals fr') ((nm, col) :: f_resv fr') (f_auto fr') (f_insts fr') in
@@ -189,7 +192,7 @@ Section Interp.
         let fr1 := reserve nm (Some col) fr in
         if has_var (s_vars s) col p nm then
           match get_var (s_vars s) col p nm with
-          | Some (SVec v) => if Nat.eqb (length v) n
+          | Some (SVec v) => if Nat.eqb (length v) (psize n input)
                              then Ok (mkFrame ((x, v) :: f_locals fr1) (f_resv fr1) (f_auto fr1) (f_insts fr1), s)
                              else Err EParamShape
           | _ => Err EOther
@@ -197,7 +200,7 @@ Section Interp.
         else if negb (mut col) then (if col_empty (s_vars s) col then Err ECollectionNotFound else Err EParamNotFound)
         else match make_rng ev p col s with
              | Err e => Err e
-             | Ok s1 => let v := repeat c0 n in
+             | Ok s1 => let v := repeat c0 (psize n input) in
                         Ok (mkFrame ((x, v) :: f_locals fr1) (f_resv fr1) (f_auto fr1) (f_insts fr1),
                             mkSt (put_var (s_vars s1) col p nm (SVec v)) (s_counters s1) (s_trace s1 ++ [ParamInit p nm]))
              end
